@@ -96,6 +96,7 @@ type scanMsg struct {
 	body    []byte
 	expired bool
 	fresh   bool // delivered in the window
+	purged  bool // another client purged its mailbox while the scan was under way
 }
 
 func scanDelivery(box string, tok int, body []byte, date time.Time) *message.Delivery {
@@ -170,7 +171,38 @@ func c10Scan(c *core.Ctx, kinds []string) {
 			c.H("scan:mailbox-" + mode)
 		}
 		deco := &scanWindowStore{Store: st, done: map[string]bool{}}
+		clientPurged := false
 		deco.window = func(mailbox, call string) {
+			// once per scan, at the scanner's first mutating call: ANOTHER CLIENT empties mailboxes the walk has listed but not reached yet
+			// (a user deletes mail, a POP3 session quits, a cap evicts).  On the file store the emptied mailbox's directories vanish
+			// under the walk; the scan goes on — every other mailbox still loses exactly its expired mail, the store stays durable
+			if !clientPurged && len(names) > 2 && r.Intn(2) == 0 {
+				clientPurged = true
+				deco.mu.Lock()
+				var later []string
+				for _, nm := range names {
+					if !deco.done[nm] && nm != mailbox {
+						later = append(later, nm)
+					}
+				}
+				deco.mu.Unlock()
+				for _, nm := range later {
+					if r.Intn(3) == 0 {
+						continue
+					}
+					if err := st.PurgeMessages(nm); err != nil {
+						c.Fail("store-op-works", append([]string{}, trace...), fmt.Sprintf("PurgeMessages(%q) by another client during the scan: %v", nm, err), "")
+						continue
+					}
+					for _, m := range msgs {
+						if m.box == nm {
+							m.purged = true
+						}
+					}
+					trace = append(trace, fmt.Sprintf("the scanner is about to call %s for %q: NOW another client purges mailbox %q, which the walk has not reached", call, mailbox, nm))
+					c.H("scan:mailbox-purged-under-the-walk")
+				}
+			}
 			body := mkBody()
 			id, err := st.AddMessage(scanDelivery(mailbox, tok, body, time.Now()))
 			if err != nil {
@@ -216,6 +248,12 @@ func c10Scan(c *core.Ctx, kinds []string) {
 			for _, m := range msgs {
 				got, ok := listed[m.box][m.id]
 				c.Compared(1)
+				if m.purged {
+					if ok {
+						c.Fail("deleted-means-gone", append(append([]string{}, trace...), when), fmt.Sprintf("%s/%s was purged by another client during the scan and is listed", m.box, m.id), "")
+					}
+					continue
+				}
 				what, orc := "was within the retention period before the scan", "retained-kept"
 				if m.fresh {
 					what, orc = "was delivered while the scanner was at the mailbox (never expired, never seen by the scanner)", "fresh-mail-survives-scan"
